@@ -14,6 +14,8 @@ import KonstVerif.Lemmas.Cmp
                                 (the pre-fix length-first comparator satisfies the same laws and
                                 still violates the property — `Legacy/Cmp.lean`)
             assertc           — `assertc_eq!` / `assertc_ne!` panic exactly when `==` / `!=` is false
+            argument exprs    — evaluated once each, left before right (as found `assertc_*!`: left
+                                twice, F10 — `Legacy/Cmp.lean`)
 -/
 namespace Konst.Props.C16
 open Konst.Cmp Konst.Spec.Cmp Konst.Lemmas.Cmp
@@ -308,7 +310,41 @@ theorem assertcNe_panics_iff {α : Type} [DecidableEq α] (e : Option Bool) (a b
   subst he
   by_cases h : a = b <;> simp [assertcNe, cmpAssertInner, stdEq, h]
 
+/-! ## argument expressions of the macros: evaluated once each, left before right -/
+
+/-- the value of the first evaluation of an argument expression -/
+theorem ArgExpr.eval_zero {α : Type} (e : ArgExpr α) : e.eval 0 = e.first := by
+  simp [ArgExpr.eval]
+
+/-- what std's `==` / `Ord::cmp` / `assert_eq!` do with their operand expressions, and what
+    `ArgUse.once` says: `$left` then `$right`, one evaluation each, and the comparison is applied
+    to the values those two evaluations produced -/
+theorem once_is_std {α : Type} (l r : ArgExpr α) :
+    ArgUse.once.evals = [.left, .right] ∧ ArgUse.once.count .left = 1 ∧ ArgUse.once.count .right = 1 ∧
+      ArgUse.once.operands l r = (l.first, r.first) := by
+  refine ⟨rfl, by decide, by decide, ?_⟩
+  simp [ArgUse.operands, ArgUse.once, ArgExpr.eval_zero]
+
+/-- `const_eq!`, `const_cmp!`, every arm of `const_eq_for!` and of `const_cmp_for!`, and (since
+    e16d62f) `assertc_eq!` / `assertc_ne!` evaluate each argument expression exactly once, left
+    before right (they bind both with one `match` and only use the bound names afterwards) -/
+theorem macro_args_once :
+    constEqArgs = .once ∧ constCmpArgs = .once ∧ constEqForArgs = .once ∧ constCmpForArgs = .once ∧
+      cmpAssertArgs = .once :=
+  ⟨rfl, rfl, rfl, rfl, rfl⟩
+
+/-- `assertc_eq!` / `assertc_ne!` hand to the comparison exactly the two values `assert_eq!` /
+    `assert_ne!` compare, for ANY argument expressions (as found this needed the left expression
+    to be idempotent: `Konst.Legacy.Cmp.legacyCmpAssertArgs_left_twice`, F10) -/
+theorem cmpAssertArgs_operands {α : Type} (l r : ArgExpr α) :
+    cmpAssertArgs.operands l r = (l.first, r.first) ∧
+      cmpAssertArgs.count .left = 1 ∧ cmpAssertArgs.count .right = 1 :=
+  ⟨(once_is_std l r).2.2.2, by decide, by decide⟩
+
 /-! ## non-vacuity: the hypotheses used above are met by the instantiations, and sample values -/
+-- a non-idempotent left operand: `assertc_eq!(next(), 0)` with `next()` yielding 0, then 1 compares 0 with 0
+example : cmpAssertArgs.operands (⟨0, [1]⟩ : ArgExpr Int) ⟨0, []⟩ = (0, 0) := by decide
+example : (⟨0, [1]⟩ : ArgExpr Int).eval 1 ≠ (⟨0, [1]⟩ : ArgExpr Int).first := by decide
 
 example : ∀ a b : List Int, eqSlice a b = some (stdEq a b) := eqSlice_iff
 example : ∀ a b : Int, (fun x y => some (cmpInt x y)) a b = some (stdCmpScalar a b) :=
